@@ -106,7 +106,9 @@ def nbs_bct(x, y, thresh, k=1000, tail='both', paired=False, verbose=False, seed
         s = np.sqrt(((n1 - 1) * np.var(x, ddof=1) + (n2 - 1)
                      * np.var(y, ddof=1)) / (n1 + n2 - 2))
         denom = s * np.sqrt(1 / n1 + 1 / n2)
-        if denom == 0:
+        # zero pooled variance <=> both samples constant; np.var of a constant sample
+        # can be a tiny nonzero number when its mean is not exactly representable
+        if denom == 0 or (np.ptp(x) == 0 and np.ptp(y) == 0):
             return 0
         if tail == 'both':
             return np.abs(t / denom)
